@@ -2,19 +2,19 @@
 from pyvc.runner import func
 
 ID = "C14"
-SELECTORS = ["SelectAll", "SelectThese", "SelectHasData", "SelectWhere", "SelectRegex", "SelectActive", "SelectN", "SetStat", "StatTotalReturn"]
+SELECTORS = ["SelectTypes", "SelectAll", "SelectThese", "SelectHasData", "SelectWhere", "SelectRegex", "SelectActive", "SelectN", "SetStat", "StatTotalReturn"]
 META = {
     "assumptions": ["A-PANDAS", "A-TIME", "A-EXT", "A-T", "A-SOLVER", "A-ENGINE"],
-    "explanation": "The real __call__ bodies of SelectAll, SelectThese, SelectHasData, SelectWhere, SelectRegex, SelectActive, SelectN, SetStat and StatTotalReturn are executed symbolically over a "
+    "explanation": "The real __call__ bodies of SelectAll, SelectThese, SelectHasData, SelectWhere, SelectRegex, SelectActive, SelectTypes, SelectN, SetStat and StatTotalReturn are executed symbolically over a "
     "label-sequence / Series algebra (membership predicate + order key, values with NaN flags) and temp['selected'] / temp['stat'] is proved equal to the documented set at skolem labels: same membership, "
     "same relative order, for every universe, date, flag combination and prior temp. Headline clauses proved separately: never a ticker outside the universe, by default never a missing/zero/negative "
     "current price; SelectN: every kept item is at least as good as every dropped candidate, ordered by the statistic, count = n or int(n*candidates) (none if all_or_none and too few); SetStat/StatTotalReturn: "
     "row at now-lag / total return over exactly [now-lag-lookback, now-lag]. The pandas operators the algebra assumes are audited exhaustively on all 125 rows of 3 tickers over {NaN,-1,0,1,2} "
-    "against the real algos, which also covers SelectRandomly, SelectTypes, ResolveOnTheRun and SelectMomentum (bounded, not proved).",
+    "against the real algos, which also covers SelectRandomly, ResolveOnTheRun and SelectMomentum (bounded, not proved).",
 }
 MANIFEST_ENTRY = {
-    "level_text": "Deductive proof (for all universes, dates, parameters and prior temp contents) that nine selection/statistic algos leave exactly the documented collection, modulo the stated pandas operator "
-    "semantics; the remaining four selectors and the operator semantics themselves are covered by an exhaustive small-domain run-time audit, labelled bounded.",
+    "level_text": "Deductive proof (for all universes, dates, parameters and prior temp contents) that ten selection/statistic algos leave exactly the documented collection, modulo the stated pandas operator "
+    "semantics; the remaining three selectors and the operator semantics themselves are covered by an exhaustive small-domain run-time audit, labelled bounded.",
     "level_note": "A-PANDAS: dropna / boolean-mask indexing / label-based loc / count / stable sort_values / head slicing behave as the reference in pyvc.ext_frames (audited at run time, not proved); ffn.calc_total_return is "
     "an uninterpreted function of the window (A-EXT); DateOffsets are non-negative integers (A-TIME): calendar-aware month arithmetic of the window start is not modelled; ties in SelectN follow pandas' sort.",
     "technique": "contract-based deductive verification over a label/Series algebra (pyvc VCs + z3, skolemised set/sequence equality); exhaustive small-domain audit of the pandas axioms",
